@@ -59,6 +59,9 @@ CallPrems(it, pths, fx) ==
   LET sig == Sig(it.rule) IN
   IF it.rule \in ArgIgnored \/ it.ak = sig THEN [ok |-> TRUE, prems |-> pths]
   ELSE IF ~fx.argsig /\ sig = "none" /\ it.ak = "thm" THEN [ok |-> TRUE, prems |-> <<it.at>> \o pths]
+  \* Thm.subst_type(tyinst, th) never looks at tyinst when th has no type variable: any object will do, also a cited sequent
+  ELSE IF ~fx.argsig /\ it.rule = "subst_type" /\ Len(pths) = (IF it.ak = "none" THEN 2 ELSE 1)
+       THEN [ok |-> TRUE, prems |-> <<pths[Len(pths)]>>]
   ELSE [ok |-> FALSE, prems |-> pths]
 
 RECURSIVE ImplSeq(_, _, _, _, _, _, _)
